@@ -46,6 +46,8 @@ struct C20 : Prop {
 				bus::Fault f; if (r.coin()) { f.kind = "delay"; f.a = r.range(1, 120); } else { f.kind = "chunk"; f.a = r.range(0, 12); f.b = r.range(1, 40); }
 				J e = J::arr(); e.push((int) r.range(1, 40)); e.push(bus::fault_json(f)); af.push(e);
 			}
+			// one feature confirmation is late and is overtaken by the confirmations that follow it
+			if (r.chance(200)) { J td = J::arr(); J e = J::arr(); e.push((int) MSG_FEATURE); e.push((int) r.range(1, 10)); e.push((int) r.range(20, 400)); td.push(e); bus.set("type_delay_once", td); }
 			bus.set("answer_faults", af); plan.set("bus", bus);
 		}
 		J se = cfg::normal_session(0, r.chance(600) ? 0 : (int) r.range(5, 40));
